@@ -85,6 +85,47 @@ func main() {
 		writeManifest()
 		return
 	}
+	if os.Getenv("E1LISTFUNCS") != "" {
+		p, err := Load(LoadOpts{Repo: *repo, Controls: filepath.Join(*verif, "checker", "controls")})
+		if err != nil {
+			fmt.Fprintln(os.Stderr, err)
+			os.Exit(2)
+		}
+		var names []string
+		for _, fi := range p.Funcs {
+			if fi.Decl != nil && !fi.Ctl {
+				names = append(names, fi.Name)
+			}
+		}
+		sort.Strings(names)
+		fmt.Println(strings.Join(names, "\n"))
+		return
+	}
+	if os.Getenv("E1SIZES") != "" {
+		p, err := Load(LoadOpts{Repo: *repo, Controls: filepath.Join(*verif, "checker", "controls")})
+		if err != nil {
+			fmt.Fprintln(os.Stderr, err)
+			os.Exit(2)
+		}
+		c := &Ctx{P: p, R: NewReporter("dump", "quick", 0), Verif: *verif}
+		for _, fi := range p.Funcs {
+			if fi.Body == nil || fi.Decl == nil || fi.Ctl {
+				continue
+			}
+			f := c.e1().analyse(fi)
+			mx, rets := 0, 0
+			for _, s := range f.sites {
+				if len(s.states) > mx {
+					mx = len(s.states)
+				}
+				if s.kind == "ret" {
+					rets += len(s.states)
+				}
+			}
+			fmt.Printf("%6d %5d %5d %v %s\n", f.visits, mx, rets, f.widened, fi.Name)
+		}
+		return
+	}
 	if *list {
 		var ids []string
 		for id := range registry {
